@@ -109,6 +109,9 @@ func (p *Packet) decodeHead(data []byte) error {
 	p.DataType = DataType((data[15] >> 4) & 0x0F)
 	p.SubcontractType = SubcontractType(data[15] & 0x0F)
 
+	// 复用对象的时候不能保留上一个包的情况
+	p.customAttributes = customAttributes{}
+	p.Timestamp, p.LastIFrameInterval, p.LastFrameInterval = 0, 0, 0
 	end := 18
 	if p.DataType != DataTypePenetrate {
 		end += 8
